@@ -45,3 +45,21 @@ func GetProofSubset(proof Proof, hashes []Hash, wants []uint64, n uint64) ([]Has
 	sort.Slice(w, func(a, b int) bool { return w[a] < w[b] })
 	return hnp.hashes, Proof{wants, proof.Proof}, nil
 }
+
+// AddProof re-points the field of its by-value parameter to a fresh slice on
+// every path before it writes through it (strong update of a private cell).
+func AddProof(proof Proof, hashes []Hash, n int) Proof {
+	if n != len(proof.Proof) {
+		proof.Proof = make([]Hash, n)
+	} else {
+		c := make([]Hash, len(proof.Proof))
+		copy(c, proof.Proof)
+		proof.Proof = c
+	}
+	for i := range proof.Proof {
+		if i < len(hashes) {
+			proof.Proof[i] = hashes[i]
+		}
+	}
+	return Proof{append([]uint64(nil), proof.Targets...), proof.Proof}
+}
